@@ -620,6 +620,44 @@ N("handlePUBACK with early return instead of try/else", ALL,
 N("loss cancel loops folded into one generic loop (all four windows)", ALL,
   [(PS, "        for _, request in self.factory.windowSubscribe[self.addr].items():\n            if request.alarm is not None:\n                request.alarm.cancel()\n                request.alarm = None\n        for _, request in self.factory.windowUnsubscribe[self.addr].items():\n            if request.alarm is not None:\n                request.alarm.cancel()\n                request.alarm = None\n        for _, request in self.factory.windowPublish[self.addr].items():\n            if request.alarm is not None:\n                request.alarm.cancel()\n                request.alarm = None\n        for _, request in self.factory.windowPubRelease[self.addr].items():\n            if request.alarm is not None:\n                request.alarm.cancel()\n                request.alarm = None\n",
     "        for window in (self.factory.windowSubscribe[self.addr], self.factory.windowUnsubscribe[self.addr],\n                       self.factory.windowPublish[self.addr], self.factory.windowPubRelease[self.addr]):\n            for request in window.values():\n                if request.alarm is not None:\n                    request.alarm.cancel()\n                    request.alarm = None\n")])
+N("loss cancel loops folded into one loop over the registries, keyed inside", ALL,
+  [(PS, "        for _, request in self.factory.windowSubscribe[self.addr].items():\n            if request.alarm is not None:\n                request.alarm.cancel()\n                request.alarm = None\n        for _, request in self.factory.windowUnsubscribe[self.addr].items():\n            if request.alarm is not None:\n                request.alarm.cancel()\n                request.alarm = None\n        for _, request in self.factory.windowPublish[self.addr].items():\n            if request.alarm is not None:\n                request.alarm.cancel()\n                request.alarm = None\n        for _, request in self.factory.windowPubRelease[self.addr].items():\n            if request.alarm is not None:\n                request.alarm.cancel()\n                request.alarm = None\n",
+    "        for windows in (self.factory.windowSubscribe, self.factory.windowUnsubscribe,\n                        self.factory.windowPublish,   self.factory.windowPubRelease):\n            for request in windows[self.addr].values():\n                if request.alarm is None:\n                    continue\n                request.alarm.cancel()\n                request.alarm = None\n")])
+B("loss cancel loop stops at the first entry without alarm (seeded C12-c)", ["C12", "C13", "C18"],
+  [(PS, "        for _, request in self.factory.windowSubscribe[self.addr].items():\n            if request.alarm is not None:\n                request.alarm.cancel()\n                request.alarm = None\n        for _, request in self.factory.windowUnsubscribe[self.addr].items():\n            if request.alarm is not None:\n                request.alarm.cancel()\n                request.alarm = None\n        for _, request in self.factory.windowPublish[self.addr].items():\n            if request.alarm is not None:\n                request.alarm.cancel()\n                request.alarm = None\n        for _, request in self.factory.windowPubRelease[self.addr].items():\n            if request.alarm is not None:\n                request.alarm.cancel()\n                request.alarm = None\n",
+    "        for windows in (self.factory.windowSubscribe, self.factory.windowUnsubscribe,\n                        self.factory.windowPublish,   self.factory.windowPubRelease):\n            for request in windows[self.addr].values():\n                if request.alarm is None:\n                    break\n                request.alarm.cancel()\n                request.alarm = None\n")],
+  expect={"C12": ["Y-CARRY"], "C13": ["R-CANCEL"], "C18": ["W7"]})
+B("in-use scan skips the hold-back queue of an address whose publish window is empty (seeded C17-c)", ["C17"],
+  [(FAC, "        for queue in self.queuePublishTx.values():\n            for request in queue:", "        for addr, queue in self.queuePublishTx.items():\n            if not self.windowPublish[addr]:\n                continue\n            for request in queue:")],
+  expect={"C17": ["ID-SCAN"]})
+N("in-use scan skips empty hold-back queues", ALL,
+  [(FAC, "        for queue in self.queuePublishTx.values():\n            for request in queue:", "        for queue in self.queuePublishTx.values():\n            if not queue:\n                continue\n            for request in queue:")])
+B("in-use scan stops at the first empty window", ["C17"],
+  [(FAC, "            for window in windows.values():\n                if msgId in window:", "            for window in windows.values():\n                if not window:\n                    break\n                if msgId in window:")],
+  expect={"C17": ["ID-SCAN"]})
+B("loss path fails held-back requests without testing .called (seeded C14-c)", ["C14", "C11", "C16"],
+  [(PS, "                request = queue.popleft()\n                if not request.deferred.called:\n                    request.deferred.errback(reason)", "                queue.popleft().deferred.errback(reason)")],
+  expect={"C14": ["M-LOSS-IDLE"], "C11": ["X-REACH"], "C16": ["E3"]})
+N("loss path tests .called the other way round", ALL,
+  [(PS, "                request = queue.popleft()\n                if not request.deferred.called:\n                    request.deferred.errback(reason)", "                request = queue.popleft()\n                if request.deferred.called:\n                    continue\n                request.deferred.errback(reason)")])
+_PT_DICT = '''    packetTypes = {0x00: "null",    0x01: "CONNECT",     0x02: "CONNACK",
+                   0x03: "PUBLISH", 0x04: "PUBACK",      0x05: "PUBREC",
+                   0x06: "PUBREL",  0x07: "PUBCOMP",     0x08: "SUBSCRIBE",
+                   0x09: "SUBACK",  0x0A: "UNSUBSCRIBE", 0x0B: "UNSUBACK",
+                   0x0C: "PINGREQ", 0x0D: "PINGRESP",    0x0E: "DISCONNECT"}
+'''
+_PT_TUPLE = '''    packetTypes = ("null",    "CONNECT",     "CONNACK",
+                   "PUBLISH", "PUBACK",      "PUBREC",
+                   "PUBREL",  "PUBCOMP",     "SUBSCRIBE",
+                   "SUBACK",  "UNSUBSCRIBE", "UNSUBACK",
+                   "PINGREQ", "PINGRESP",    "DISCONNECT")
+'''
+B("packet type table turned into a tuple, the lookup still catches KeyError only (seeded C16-c)", ["C16", "C14", "C03"],
+  [(BASE, _PT_DICT, _PT_TUPLE)],
+  expect={"C16": ["E3"], "C14": ["M-UNKNOWN-TYPE"], "C03": ["F2", "F6"]})
+N("packet type table turned into a tuple, the lookup catches IndexError", ALL,
+  [(BASE, _PT_DICT, _PT_TUPLE),
+   (BASE, "            packet_type_name = self.packetTypes[packet_type]\n        except KeyError as e:", "            packet_type_name = self.packetTypes[packet_type]\n        except IndexError as e:")])
 N("handleCONNACK with the refusal branch first", ALL,
   [(BASE, "        if response.resultCode == 0:\n            self.state = self.CONNECTED\n            self.mqttConnectionMade()   # before the callbacks are executed ...\n            if request.keepalive != 0:\n                self._pingReq.keepalive = request.keepalive\n                self._pingReq.timer     = task.LoopingCall(self.ping)\n                self._pingReq.timer.start(request.keepalive)\n            request.deferred.callback(response.session)\n        else:\n",
     "        if response.resultCode == 0:\n            self.state = self.CONNECTED\n            self.mqttConnectionMade()   # before the callbacks are executed ...\n            keepalive = request.keepalive\n            if keepalive != 0:\n                self._pingReq.keepalive = keepalive\n                self._pingReq.timer     = task.LoopingCall(self.ping)\n                self._pingReq.timer.start(keepalive)\n            request.deferred.callback(response.session)\n        else:\n")])
